@@ -14,6 +14,7 @@
 
 from __future__ import annotations
 
+import os
 import random
 
 from ..common import Run
@@ -484,7 +485,7 @@ def main(prop: str, tier: str) -> int:
             sig = classify(prop, clause, ev, line, detail, meta[i - 1].get('backend', 'dict'))
             run.violation(f'{clause} at event {line}: {ev[line - 1]}',
                           {'check': prop, 'meta': meta[i - 1], 'clause': clause,
-                           'line': line, 'events': ev[max(0, line - 25):line]}, sig)
+                           'line': line, 'events': ev[max(0, line - int(os.environ.get('VERIF_TRACE_TAIL', '25'))):line]}, sig)
     run.notes['clauses_of_other_properties_seen'] = other
     for m in (meta[0], meta[len(behs)] if len(meta) > len(behs) else meta[-1]):
         run.sample(m)
@@ -746,10 +747,10 @@ def classify(prop, clause, events, line, detail='', backend='dict'):
 
 
 def seen_race(events, line: int) -> bool:
-    """True iff the probe that fails is of a session that ran a \\Seen-setting FETCH whose
-    execution overlapped another session's STORE, and the only disagreement is \\Seen on
-    messages that FETCH reported: the maildir store returns the message as it was when the
-    FETCH updated it, while the session's snapshot is the later rescan."""
+    """True iff the probe that fails is of a session whose own flag-changing command (STORE, or
+    a \\Seen-setting FETCH) overlapped another session's STORE, and the disagreement is on
+    messages that command reported: the maildir store returns the message as it was when THIS
+    command updated it, while the session's snapshot is the later rescan."""
     probe = events[line - 1]
     if probe.get('e') != 'probe':
         return False
@@ -772,10 +773,9 @@ def seen_race(events, line: int) -> bool:
         return False
     for u in bad_uids:
         i, fl = told[u]
-        if fl ^ set(truth[u]) != {'\\Seen'}:
-            return False
+        # told by this session's OWN flag-changing command (STORE, or a \\Seen-setting FETCH) ...
         mine = [sp for sp in spans if sp[0] == s and sp[1] <= i <= sp[2]
-                and sp[3][0] == 'fetch' and len(sp[3]) > 3 and sp[3][3]]
+                and (sp[3][0] == 'store' or (sp[3][0] == 'fetch' and len(sp[3]) > 3 and sp[3][3]))]
         if not mine:
             return False
         a, b = mine[-1][1], mine[-1][2]
